@@ -21,7 +21,8 @@ C01M = 'Bashlex.Props.C01'
 T_C01 = [('Bashlex.C01.' + t, C01M) for t in ['C01_partial', 'C01_partial_single', 'C01_partial_split', 'C01_parserRun', 'C01_conditional',
          'expand_progress', 'sat_expandwordinternal', 'parseLoop_exn', 'shAction_sound', 'C01_expand_terminates', 'C01_parse_terminates',
          'C01_no_marker', 'C01_foreign', 'disciplined_iff']]
-reg('C01', 'propchecks.c01', 'proof', T_C01 + T1, [ASCII, DEPTH, CORR,
+reg('C01', 'propchecks.c01', 'proof', [("Bashlex.C11.C01_partial'", 'Bashlex.Props.C11Total'), ('Bashlex.C11.no_init_assert', 'Bashlex.Props.C11Total')] + T_C01 + T1, [ASCII, DEPTH, CORR,
+    "C01_partial' (Props/C11Total.lean) removes AssertionError|ParsingError.__init__ from the list: error positions are proved in range. " +
     'C01_partial bounds what can escape the model: ParsingError, NotImplementedError, 7 listed (type, site) pairs above the tokenizer (3 are recorded defects '
     'with kernel-checked witnesses, 4 could not be excluded), 14 raise sites of the tokenizer (not analysed for reachability) and the out-of-fuel markers of the '
     'loops covered by fuel only (LR engine, nesting depth 64, tokenizer loops); termination is proved for the loops of _expandwordinternal and parse()'])
@@ -36,15 +37,14 @@ reg('C03', 'propchecks.treespec', 'proof', T_C03 + T1, [ASCII, DEPTH, CORR,
     'with ONE hypothesis left: RootEnds (the root of a nested parser run does not end in two newlines unless ")" follows - a text-level fact needed for the trailing-newline trim of _parsedolparen). The token-source hypothesis is '
     'DISCHARGED for the real tokenizer (tokSpans: positioned, non-empty, ordered tokens starting inside the input; redirect cells extended over a here-document only at the frontier; closure under the parser and nested parsers)'])
 C04M = 'Bashlex.Props.C04'
+T_C04T = [('Bashlex.C04.' + t, 'Bashlex.Props.C04Total') for t in ['tokText', 'C04_prov_total', 'C04_leaf_text_total', 'C04_spine_operator_total', 'C04_spine_pipe_total', 'C04_partial_total', 'C04_total_conditional', 'C04_total_spine_conditional']] + [('Bashlex.C04.TTP.scanHyp', 'Bashlex.Props.C04.TokTextProof'), ('Bashlex.C04.tokText_of', 'Bashlex.Props.C04.TokTextProof')]
 T_C04 = [('Bashlex.C04.' + t, C04M) for t in ['C04_partial', 'C04_partial_conditional', 'C04_partial_spine', 'C04_prov', 'C04_prov_single', 'C04_leaf_text', 'C04_operator', 'C04_pipe', 'C04_redirect', 'C04_word_span',
          'C04_spine_leaf_text', 'C04_spine_operator', 'C04_spine_pipe', 'value_slice', 'dollar_text', 'Src.slice_eq', 'textOK_origin', 'keepsEol_action', 'parserRun_C04', 'sat_action']]
-reg('C04', 'propchecks.treespec', 'proof', T_C04 + T1, [ASCII, DEPTH, CORR,
-    'WARNING: the hypothesis TokText as stated in Props/C04/TokText.lean is FALSE of the model on rare inputs found after it was validated (a double-quoted word with an escaped backslash directly before a real continuation, e.g. the 7 characters dquote backslash backslash backslash newline newline dquote; the word <() followed by <backslash; states with the regexp/dblparen flags): for those inputs C04_partial says nothing, and as a universally quantified hypothesis it makes C04_partial vacuous until the corrected relation (delB: the value is the text with some backslash-newline pairs deleted) lands; only the theorems that do not take TokText (keepsEol_action, Src.slice_eq, value_slice, dollar_text) are unaffected. Until then C04 is decided per input only. ' +
-    'C04_partial is CONDITIONAL on TokText (every delivered token: the text under its span, continuations removed, is its spelling up to four explicit residues = defects D31, D32, D31+D32, NEWLINE over here-document bodies; NOT proved from the '
-    'tokenizer; validated by #eval at every build on 1173 corpus strings and 3730 grid strings with all suffixes, strict and non-strict: 0 failures) and on TokSpansAll (= RootEnds, the rest is discharged). Above it: every reserved-word, operator, '
-    'pipe, redirect, word and assignment node at any depth is built from delivered tokens (C04_prov); operator/pipe/reserved-word nodes outside words carry exactly their text up to the recorded residues (C04_spine_*); redirects: first/operator/'
-    'target tokens, numeric fd; words: one token span with C07.PartsOK parts; value_slice/dollar_text give part texts in the token value. The word clauses (whole word, cut short, starts late), redirect-text adjacency and here-document redirect '
-    'spans stay outside (Unlinked) and are decided per input'])
+reg('C04', 'propchecks.treespec', 'proof', T_C04T + T_C04 + T1, [ASCII, DEPTH, CORR,
+    'tokText (Props/C04/TokTextProof.lean): the token-text hypothesis is PROVED for the real tokenizer (all of _readtoken, _readtokenword, _parse_matched_pair, _parse_comsub; ghost-text invariant through every buffer append), for the corrected relation '
+    'textRel sl v r = "the value followed by the residue is the text under the span with some backslash-newline pairs deleted" (the first formulation, validated by #eval only, was found false on rare inputs by the proof attempt: an escaped backslash directly before a real '
+    'continuation); residues = the recorded defects D31, D32, D31+D32 and NEWLINE over here-document bodies. C04_prov_total, C04_leaf_text_total, C04_spine_operator_total, C04_spine_pipe_total, C04_partial_total are unconditional; C04_total_conditional has RootEnds as its only hypothesis. '
+    'Outside the theorem (the Unlinked disjunct) and decided per input: the word clauses of textOK (whole word, cut short, starts late), adjacency of fd and operator, the span of a here-document redirect'])
 C05M = 'Bashlex.Props.C05'
 C05G = 'Bashlex.Props.C05.Gaps'
 T_C05 = [('Bashlex.C05.' + t, C05M) for t in ['C05_partial', 'C05_partial_parts', 'C05_partial_single', 'fcovers_strict', 'leaves_resolve', 'act_leaves', 'leaves_hooks', 'parserRun_leaves']] + \
@@ -90,7 +90,9 @@ C11M = 'Bashlex.Props.C11'
 T_C11 = [('Bashlex.C11.' + t, C11M) for t in ['nextToken_good', 'gather_good', 'pError_ht', 'tok_no_init_assert', 'C11_later', 'topParsing_source', 'topParsing_eof', 'topParsing_token',
          'C11_parserRun_conditional', 'no_init_assert_conditional', 'C11_parse_conditional', 'C11_toplevel_conditional', 'C11_first_conditional', 'C11_position_conditional',
          "C01_partial'_conditional", 'witness_later', 'witness_nested', 'witness_heredoc']]
-reg('C11', 'propchecks.c11', 'proof', T_C11 + T1[:1] + [('Bashlex.Q.run_touched_irrelevant', QC), ('Bashlex.History.results_eq_solo', QC)], [ASCII, DEPTH, CORR,
+T_C11T = [('Bashlex.C11.' + t, 'Bashlex.Props.C11Total') for t in ['C11_parserRun', 'no_init_assert', 'C11_parse', 'C11_parsesingle', "C01_partial'", 'C11_toplevel', 'C11_first', 'C11_position', "C11_later'", 'parserRun_good4']]
+reg('C11', 'propchecks.c11', 'proof', T_C11T + T_C11 + T1[:1] + [('Bashlex.Q.run_touched_irrelevant', QC), ('Bashlex.History.results_eq_solo', QC)], [ASCII, DEPTH, CORR,
+    'Props/C11Total.lean: the hypothesis TokLen is GONE (the token-text theorem tokText supplies it; the invariant carries an empty look-ahead slot): C11_parse / C11_parsesingle / C11_parserRun (every escaping ParsingError at every depth has 0 <= p <= len(src): the assert of ParsingError.__init__ can never fire - no_init_assert), C11_first / C11_toplevel (a top-level error carries the input as its source; the here-document error the input with the appended newline), C11_position (unexpected EOF => p = len(src); unexpected token => p = lexpos of a delivered token with that repr) are unconditional for parse, parsesingle and runParser. ' +
     'unconditional: the tokenizer keeps its cursor inside the line (Good), every delivered token starts inside the line, every ParsingError raise site of the tokenizer and both p_error messages pass 0 <= p <= len(src) '
     '(the assert of ParsingError.__init__ cannot fire there), an error of a later part is the unchanged error of a run on the suffix (C11_later, finding D15 stated exactly). Conditional on TokLen (a backquote at index k of a '
     'token value lies inside the line; needed only for the bad-substitution error; no counterexample in 2.3M fuzzed tokens): position range for every escaping ParsingError at every depth, source of a top-level error = the input '
